@@ -312,7 +312,12 @@ def load_known_findings():
     if not os.path.exists(p):
         return []
     with open(p) as f:
-        return json.load(f)["findings"]
+        res = list(json.load(f)["findings"])
+    import glob
+    for q in sorted(glob.glob(os.path.join(VERIF, "known_findings.d", "*.json"))):
+        with open(q) as f:
+            res += json.load(f)["findings"]
+    return res
 
 
 class Ctx:
